@@ -146,6 +146,17 @@ contract(V3 + "._process_packet",
                   "handshake_payload": "implies((packet[5] & 0xF) == 1, result == packet[8:])"})
 
 
+contract(V3 + "._process_packet#handshake_reply_bits",
+         params={"self": "obj:" + V3, "proof": "bytes[64]", "rid": "bytes[2]", "pad": "int[0,15]", "rid2": "bytes[2]", "pad2": "int[0,15]"},
+         requires=["rid2 != rid or pad2 != pad"],
+         let={"packet": "memoryview(b'\\x83\\x70' + be16(64) + b'\\x20' + bytes([(pad2 << 4) | 1]) + rid2 + proof)"},
+         bind={"packet": "packet"},
+         raises={LAN + "ProtocolError": {}},
+         ensures={"a_reply_altered_outside_the_proof_is_not_taken_for_the_genuine_one": "result != proof"},
+         notes="the literal C06 clause 'any reply altered in any bit fails' for the bits of a handshake reply that carry no meaning "
+               "(upper nibble of header byte 5, the two bytes of the response id): they are not covered by the proof and not inspected; "
+               "refuted by design -> known finding F16 (the proof bytes themselves are decided by _get_local_key's iff-contract)")
+
 # ---- C06: handshake -----------------------------------------------------------------------------------------------------
 def hs_request(ctr, token):
     return b"\x83\x70" + be16(len(token)) + b"\x20" + bytes([0x00]) + be16(ctr) + token
